@@ -189,6 +189,10 @@ func (rg *rootGeneratorPipeline) worker(ctx context.Context, wg *sync.WaitGroup,
 				errc <- err
 				return
 			}
+			if root == nil {
+				// blank lines only (empty input, lines before the first root): nothing to forward
+				continue
+			}
 			select {
 			case <-ctx.Done():
 				return
